@@ -675,8 +675,24 @@ func (e *env) resume(k int) string {
 	res := strings.Join(rs, ",") + " " + tipStr(n, t) + " chain=" + chain
 	got := n.Snap(t)
 	if ok, d := got.Equal(e.finalSnap); !ok {
-		out.Pred(prop+"|resume|final-chain-differs-from-the-uninterrupted-run|"+site,
-			fmt.Sprintf("first-diff=%s %s", trunc(d, 300), e.detail(eff)))
+		// a different final chain of the SAME total difficulty (fork choice among equally heavy
+		// branches is first-seen, and the restart changed what is seen first) has its own signature
+		tipHash, _ := n.Tip()
+		tip := t.Index(tipHash)
+		tie := false
+		if tip >= 0 && e.finalTip >= 0 && tip != e.finalTip && t.TD[tip].Cmp(t.TD[e.finalTip]) == 0 {
+			if ok2, _ := got.Equal(e.reference(tip).snap); ok2 {
+				tie = true
+			}
+		}
+		if tie {
+			out.Stat("resume_tie_divergence", 1)
+			out.Pred(prop+"|resume|different-final-chain-of-equal-total-difficulty",
+				fmt.Sprintf("site=%s resumed_tip=%d uninterrupted_tip=%d td=%s %s", site, tip, e.finalTip, t.TD[tip], e.detail(eff)))
+		} else {
+			out.Pred(prop+"|resume|final-chain-differs-from-the-uninterrupted-run|"+site,
+				fmt.Sprintf("first-diff=%s %s", trunc(d, 300), e.detail(eff)))
+		}
 	}
 	if e.rec {
 		_, recs, last := seqStr(n, t)
@@ -799,19 +815,28 @@ func genCase(r *gen.Rand, name string, flavour int) tcase {
 		c1 := add(lastB, 2)
 		order = append(order, c1, bsIdx[len(bsIdx)/2])
 	default:
-		// random growth above the trunk
-		extra := 5 + r.Intn(4)
-		for k := 0; k < extra; k++ {
-			var p int
-			switch r.Pick(4, 3, 2) {
-			case 0:
-				p = len(bs) - 1 - r.Intn(min(len(bs)-1, 3))
-			case 1:
-				p = max(0, trunk-r.Intn(3))
-			default:
-				p = trunk - 2 + r.Intn(len(bs)-trunk+2)
+		// random growth above the trunk; redrawn until the heaviest block is unique and at least the
+		// margin high (the hypotheses of resume_converges_partial: with a total-difficulty tie at the
+		// top the final chain depends on which block is seen first — corpus/C29/tie-resume.ops)
+		base := append([]blk{}, bs...)
+		for try := 0; try < 50; try++ {
+			bs = append([]blk{}, base...)
+			extra := 5 + r.Intn(4)
+			for k := 0; k < extra; k++ {
+				var p int
+				switch r.Pick(4, 3, 2) {
+				case 0:
+					p = len(bs) - 1 - r.Intn(min(len(bs)-1, 3))
+				case 1:
+					p = max(0, trunk-r.Intn(3))
+				default:
+					p = trunk - 2 + r.Intn(len(bs)-trunk+2)
+				}
+				add(p, int64(1+r.Intn(6)))
 			}
-			add(p, int64(1+r.Intn(6)))
+			if uniqueHeaviestEligible(bs) {
+				break
+			}
 		}
 		rest := r.Perm(len(bs) - 1 - trunk)
 		for _, i := range rest {
@@ -834,6 +859,22 @@ func genCase(r *gen.Rand, name string, flavour int) tcase {
 		}
 	}
 	return tcase{name: name, rec: r.Chance(3, 4), blocks: bs, order: order}
+}
+
+// uniqueHeaviestEligible: exactly one block has the maximal total difficulty and it is at least
+// `margin` high.
+func uniqueHeaviestEligible(bs []blk) bool {
+	td := make([]int64, len(bs))
+	best, uniq := 0, true
+	for i := 1; i < len(bs); i++ {
+		td[i] = td[bs[i].parent] + bs[i].work
+		if td[i] > td[best] {
+			best, uniq = i, true
+		} else if td[i] == td[best] {
+			uniq = false
+		}
+	}
+	return uniq && bs[best].height >= finalized+margin
 }
 
 func genCases(seed uint64) []tcase {
